@@ -61,7 +61,7 @@ func (t *vC07Tab) Commit(d exectypes.CommitData) string {
 	for i, s := range d.ExecutedMessages {
 		ex[i] = uint64(s)
 	}
-	return cApp("mkCommit", cN(t.commit.Id(fmt.Sprintf("%v", d))), cN(t.root.Id(d.MerkleRoot.String())),
+	return cApp("mkCommit", cN(t.commit.Id(fmt.Sprintf("%v", d))), cN(uint64(d.SourceChain)), cN(t.root.Id(d.MerkleRoot.String())),
 		cN(uint64(d.SequenceNumberRange.Start())), cN(uint64(d.SequenceNumberRange.End())), cListN(ex))
 }
 func (t *vC07Tab) CommitID(d exectypes.CommitData) uint64 { return t.commit.Id(fmt.Sprintf("%v", d)) }
@@ -352,7 +352,9 @@ func vC07Build(cr *vRand, shape string, forceN, forceF int, distinctF bool) (*vC
 				rootCtr++
 				d := vC07Commit(c, lo, hi, rootCtr, ex)
 				if withCommits {
-					for _, o := range g.pickOracles(g.count(g.thr(c)), 0) {
+					// commit reports are agreed at the destination's f (repair of F75): counts around both thresholds, so that
+					// f(source) < f(dest) and f(source) > f(dest) both put reports between the two
+					for _, o := range g.pickOracles(g.count(vPick(cr, []int{g.thr(c), g.thr(vC07Dest), g.thr(vC07Dest)})), 0) {
 						vC07AddCommit(g.ob(o), c, d)
 					}
 				}
